@@ -17,7 +17,7 @@ SPEC = dict(
                 "exhaustively on every run: every served method x 24 credentials x 4 server configurations over HTTP and websocket on a real "
                 "rpc.Server built by the node's own constructor and registration list (partial: cryptographic strength of HS256 and the module "
                 "implementations behind the mocks are outside the model)."),
-    rule=("exhaustive: every method the running server serves (cross-checked in Coq against the generated table, both directions) x every "
+    rule=("temporal scenario (per authenticated server configuration): one admin token minted with a 2 s lifetime is used while valid on one method of each declared permission level and used AGAIN after its expiry (the verdict on a token must not be remembered); exhaustive: every method the running server serves (cross-checked in Coq against the generated table, both directions) x every "
           "credential (none, public, read, read+write, admin, expired, other key, garbage; plus TTL-valid, admin-only, write-only, no-public, "
           "empty and unknown permission lists, missing Bearer prefix, ?token= form transport, forged payload, alg=none, other HMAC algorithm, "
           "truncated, signed-but-undecodable claims) x {auth, auth+CORS, auth+metrics, auth disabled}; websocket for subscriptions and, on the "
